@@ -373,12 +373,12 @@ CHECKS["C14"] = {
     "engine": "E1",
     "technique": "exhaustive enumeration of the finite product field kind x boundary length x copying API on the real code under ASan (lengths around BUFSIZ, PATH_MAX, NAME_MAX)",
     "level_text": "for every field kind (key, value, continuation line, section name, comment before, comment after) and every length in {1, 8190..8194, 16384, "
-                  "65536, 1 Mi}: read, key/section listings, plain and extended getter, merge in both roles, write + re-read, layered read and error location "
+                  "65536, 256 Ki, 1 Mi}: read, key/section listings, plain, typed, defaulted and extended getters, merge in both roles (the partner carrying a key / section whose name differs in the last byte only), write + re-read, layered read and error location "
                   "must return exactly the bytes written; drop-in names of 100/254/255 bytes; file paths of 4000..4200 bytes around PATH_MAX (success below, "
                   "error code at and above); option strings and unknown option names of those lengths; econftool --delimiters of those lengths (up to 64 Ki); "
                   "one object with 16 entries whose value and both comments have 64 Ki each (read, write + re-read, merge); all library calls run on a thread with a "
-                  "512 KiB stack so that stack use growing with a field length overflows within the enumerated lengths",
-    "level_note": "finite product, completely enumerated (quick without the 1 MiB column); trusted: ASan/UBSan, tmpfs limits = Linux NAME_MAX 255 / PATH_MAX 4096",
+                  "160 KiB stack so that stack use growing with a field length overflows within the enumerated lengths",
+    "level_note": "finite product, completely enumerated (quick without the 1 MiB column); comment blocks of two and three lines; trusted: ASan/UBSan, tmpfs limits = Linux NAME_MAX 255 / PATH_MAX 4096",
     "rule": "case = (field kind, length); non-trivial = length > 1; distinct by construction",
     "deadline": {"quick": 100, "thorough": 600},
     "parts": [
